@@ -1167,7 +1167,7 @@ class Engine:
             elif len(early) == 1:
                 atoms.append(1)
                 # sole way out of a `loop {}`: its guard holds for the values that leave the loop
-                self.assumed.append(self.subst(("b", o[3]), sub_some0)[1] if False else o[3])
+                self.assumed.append(self.bdd_subst(o[3], {("lv", uid, c): ("some_iter", uid, c) for c in M}))
             else:
                 atoms.append(bdd.var(("exit", uid, k)))
         res = []
